@@ -64,7 +64,7 @@ def parse_output(out, harnesses):
 
 def run(scratch, harnesses, jobs=12, timeout=3000, extra=()):
     h = setup(scratch)
-    cmd = ['cargo', 'kani', '--output-format', 'terse', '--exact', '-j', str(jobs)] + list(extra)
+    cmd = ['cargo', 'kani', '--output-format', 'terse', '--exact', '-Z', 'stubbing', '-j', str(jobs)] + list(extra)
     for n in harnesses:
         cmd += ['--harness', n]
     t0 = time.time()
